@@ -85,10 +85,16 @@ func (o *c06Oracle) post(i *IRCServer, idx int, e ircgen.Entry, outs []out, pan 
 			if len(outs) > 0 {
 				outcome = outCommand(outs[0])
 			}
-			cls := firstWord(e.Data) + "/" + o.role + "/" + outcome
+			word := firstWord(e.Data)
+			if _, known := Commands[word]; !known {
+				if _, known = Commands["server_"+word]; !known {
+					word = "(not-a-command)"
+				}
+			}
+			cls := word + "/" + o.role + "/" + outcome
 			if !o.classes[cls] {
 				o.classes[cls] = true
-				o.rec.Label("class:" + o.role + ":" + firstWord(e.Data))
+				o.rec.Label("class:" + o.role + ":" + word)
 			}
 		}
 		o.rec.Count("lines_evaluated", 1)
